@@ -257,6 +257,21 @@ def c06(E, blt, opts, r):
                             out.append(V_('c06-transfer-value', "ballot value %s -> %s, prescribed %s (exact %s) at %r" % (pw, nw, want, exactv, a['msg']), **sig)); break
                         if fv(E, cs[x]['vote']) != fv(E, a['quota']):
                             out.append(V_('c06-keeps-quota', "candidate %d holds %s after its surplus transfer, quota is %s" % (x, cs[x]['vote'], a['quota']), **sig)); break
+            # every ballot that stood with the transferring candidate leaves at the prescribed value, changed or not
+            # (a surplus of zero must leave them worthless)
+            if is_surplus_transfer(a) and ': ' in a['msg']:
+                nm = a['msg'].split(': ', 1)[1].rsplit(' (', 1)[0]
+                xs = [c.cid for c in E.C if c.name == nm]
+                if len(xs) == 1 and prev['cstate'][xs[0]]['state'] in ('elected', 'hopeful'):
+                    x = xs[0]; pv = prev['cstate'][x]['vote']; q = prev['quota']; surplus = pv - q
+                    if fv(E, pv) > 0 and fv(E, surplus) >= 0:
+                        for k, ((pi, pw), (ni, nw)) in enumerate(zip(prevw, ws)):
+                            rk = list(E.ballots[k].ranking)
+                            if pi < len(rk) and rk[pi] == x:
+                                want = V.muldiv(pw, surplus, pv, round='down') if rule == 'scotland' else (pw * surplus) / pv
+                                if fv(E, nw) != fv(E, want):
+                                    out.append(V_('c06-transfer-value', "ballot of %d leaves at value %s, prescribed %s = %s x %s / %s at %r" %
+                                                  (x, nw, want, pw, surplus, pv, a['msg']), **sig)); break
         prev = a; prevw = ws
     return out
 
